@@ -514,3 +514,23 @@ func exprString(fset *token.FileSet, e ast.Node) string {
 	}
 	return fmt.Sprintf("%T", e)
 }
+
+// inspectParents walks root (not descending into nested function literals) and calls f with each node
+// and the stack of its ancestors (innermost last). f's result decides whether children are visited.
+func inspectParents(root ast.Node, f func(n ast.Node, parents []ast.Node) bool) {
+	var stack []ast.Node
+	ast.Inspect(root, func(n ast.Node) bool {
+		if n == nil {
+			stack = stack[:len(stack)-1]
+			return false
+		}
+		if _, isLit := n.(*ast.FuncLit); isLit && n != root {
+			return false
+		}
+		desc := f(n, stack)
+		if desc {
+			stack = append(stack, n)
+		}
+		return desc
+	})
+}
